@@ -4,9 +4,9 @@ package auctioneer
 
 import "github.com/lightninglabs/pool/auctioneerrpc"
 
-// VerifCheckPendingBatch runs the real, unexported Client.checkPendingBatch
+// VerifStageCheckPendingBatch runs the real, unexported Client.checkPendingBatch
 // with the given batch source, cleaner and auctioneer RPC client.
-func VerifCheckPendingBatch(src BatchSource, cl BatchCleaner,
+func VerifStageCheckPendingBatch(src BatchSource, cl BatchCleaner,
 	rpc auctioneerrpc.ChannelAuctioneerClient) error {
 
 	c := &Client{
